@@ -293,9 +293,11 @@ def SS(rules):
 
 # ----------------------------------------------------------------------------- implementation driver
 class Impl:
-    def __init__(self, kind, rows=(), load_first=True, enforcer_cls=None, enforcer_kwargs=None, model_text=None):
+    def __init__(self, kind, rows=(), load_first=True, enforcer_cls=None, enforcer_kwargs=None, model_text=None,
+                 model_factory=None, sort_p=False):
         self.kind = kind
-        m = Model()
+        self.sort_p = sort_p
+        m = model_factory() if model_factory else Model()
         m.load_model_from_text(model_text or kind.model_text())
         self.adapter = RecAdapter([(PT[pt][1], S(r)) for pt, r in rows]) if kind.adapter else None
         cls = enforcer_cls or casbin.Enforcer
@@ -316,7 +318,8 @@ class Impl:
     def policy(self, pt):
         sec, key = PT[pt]
         if sec in self.e.model.model and key in self.e.model.model[sec]:
-            return ATOMS.rules(self.e.model.model[sec][key].policy)
+            rs = ATOMS.rules(list(self.e.model.model[sec][key].policy))
+            return sorted(rs) if (self.sort_p and pt == 0) else rs
         return []
 
     def rows(self):
@@ -972,7 +975,7 @@ def run_cases(chk, kind, cases, spec_check=None, label="", impl_kwargs=None, com
             else:
                 last_obs = obs[step]
             reported_spec += 1
-            chk.spec_fail(dict(kind=kind.name, kind_wire=kind.wire(), stratum=label, load_first=lf,
+            chk.spec_fail(dict(getattr(spec_check, "case_extra", {}), kind=kind.name, kind_wire=kind.wire(), stratum=label, load_first=lf,
                                initial_rows=[[pt, r] for pt, r in rows], ops=[list(o) for o in small],
                                readable=dict(initial_rows=[[pt, S(r)] for pt, r in rows],
                                              history=[pretty_op(o) for o in small])),
